@@ -1713,6 +1713,9 @@ impl proto::Peer for Peer {
             if is_connect && !has_protocol {
                 malformed!("malformed headers: :scheme in CONNECT");
             }
+            if scheme.is_empty() {
+                malformed!("malformed headers: empty scheme");
+            }
             let maybe_scheme = scheme.parse();
             let scheme = maybe_scheme.or_else(|why| {
                 malformed!(
@@ -1746,8 +1749,14 @@ impl proto::Peer for Peer {
             parts.path_and_query = Some(maybe_path.or_else(|why| {
                 malformed!("malformed headers: malformed path ({:?}): {}", path, why,)
             })?);
-        } else if is_connect && has_protocol {
-            malformed!("malformed headers: missing path in extended CONNECT");
+        } else if !is_connect || has_protocol {
+            // Only a plain CONNECT has no :path (RFC 9113, section 8.3.1).
+            malformed!("malformed headers: missing path");
+        }
+
+        if is_connect && !has_protocol && parts.authority.is_none() {
+            // RFC 9113, section 8.5: CONNECT names its target in :authority.
+            malformed!("malformed headers: missing authority in CONNECT");
         }
 
         b = b.uri(parts);
